@@ -581,6 +581,24 @@ impl CheckPoints {
             return Err(StatusCode::CheckPointsIsUnaligned.with_context(errmsg));
         }
         let next_number = self.number_of_next_check_point();
+        let first_number = self.number_of_first_check_point();
+        if first_number <= start_number && start_number < next_number {
+            // The request is sent again by the timer while the first one is in flight, so the
+            // second answer starts at a check point which is known already: it is not an
+            // unexpected message (for which the peer is banned) unless it contradicts them.
+            let offset = ((start_number - first_number) / self.check_point_interval) as usize;
+            if self.inner[offset..]
+                .iter()
+                .zip(check_points.iter())
+                .all(|(known, check_point)| known == check_point)
+            {
+                let errmsg = format!(
+                    "check points from {} are known, next is {}",
+                    start_number, next_number
+                );
+                return Err(StatusCode::Ignore.with_context(errmsg));
+            }
+        }
         if start_number != next_number {
             let errmsg = format!(
                 "expect starting from {} but got {}",
